@@ -44,7 +44,7 @@ def route (fs : FS) (cs : ChainSite) (target : Bytes) (r : Resp) : String :=
       | some u => (match dirOpen fs cs.site.root u.path with | .ok e => decide (e.ino = ino) | .error _ => false)
       | none => false
     if direct then "direct"
-    else if enc.isSome then "sibling"
+    else if enc.isSome || fs.any (fun e => decide (e.ino = ino) && cs.site.encodings.any (fun ne => hasSuffix e.name ne.2)) then "sibling"
     else if fs.any (fun e => decide (e.ino = ino) && cs.site.indexPages.contains e.name) then "index"
     else "rewritten"
   | _ => "none"
